@@ -226,7 +226,7 @@ def cases(draw):
         "method": method,
         "api": api,
         "fluxes": True if api == "function" else draw(st.sampled_from([True, True, False])),
-        "n": draw(st.one_of(st.integers(1, 30), st.integers(5, 12))),
+        "n": draw(st.one_of(st.integers(1, 30), st.integers(5, 30), st.sampled_from([5, 8, 10, 20]))),
         "batch_num": draw(st.integers(2, 3)),
         "thinning": draw(st.sampled_from([1, 3, 10])),
         "nproj": None if api == "function" else draw(st.sampled_from([None, None, 1, 2, 7, 100])),
@@ -630,7 +630,7 @@ def hyp_phase(ctx):
 
 def phases(tier):
     if tier == "quick":
-        return [Phase("hyp", hyp_phase, shards=8, params={"max_examples": 300, "budget_s": 50})]
+        return [Phase("hyp", hyp_phase, shards=8, params={"max_examples": 220, "budget_s": 50})]
     return [Phase("hyp", hyp_phase, shards=16, params={"max_examples": 1500, "budget_s": 500})]
 
 
